@@ -88,5 +88,5 @@ Lemma get_domain_is_the_source host : get_domain host = src_get_domain host.
 Proof.
   unfold get_domain, src_get_domain. cbv zeta. rewrite <- get_hostname_is_the_source.
   destruct (is_ip_literal (get_hostname host)); [reflexivity|]. unfold dot.
-  destruct (split_byte "."%byte (get_hostname host)) as [|a [|b [|c r]]]; reflexivity.
+  destruct (split_byte "."%byte (trim_suffix_byte "."%byte (get_hostname host))) as [|a [|b [|c r]]]; reflexivity.
 Qed.
